@@ -51,6 +51,10 @@ class FunctionData:
         end_label_pos = None
 
         name = self.name.replace("_", ".")
+        if self.code and self.code[0].op.endswith(":"):
+            # the emitted label: functions of library modules are qualified
+            # ("airlock.run"), and so are their "<label>end" exits
+            name = self.code[0].op[:-1]
 
         for i, instr in enumerate(self.code):
             if instr.op.endswith("al"):
